@@ -14,7 +14,9 @@ use std::collections::BTreeSet;
 use tree_sitter_graph::graph::{Graph, Value};
 use tree_sitter_graph::Identifier;
 
-const KEYS: &[&str] = &["a", "b", "name", "k-1", "_x", "\u{e9}", "z\"q", "A", "type", "id"];
+// names that are prefixes of one another, continued by a digit, a letter, `-`, `_`, a space: sorting is by NAME, not by
+// the rendered line `name: value`
+const KEYS: &[&str] = &["a", "b", "name", "k-1", "_x", "\u{e9}", "z\"q", "A", "type", "id", "a1", "a10", "a 1", "a-b", "a_b", "name2", "names", "k", "k-"];
 
 /// values of every variant. Inside a set at most one syntax node occurs (at any depth): the order of
 /// two syntax nodes inside a `BTreeSet` follows their address-derived ids, which is not observable
